@@ -14,7 +14,7 @@ PROP = {
             "bin": "c20daisy", "pkg": "tm/tmp2p/tmp2ptest",
             "inject": [("c20msg", "internal/zzverif/c20msg"), ("c20daisy", "tm/tmp2p/tmp2ptest")],
             "tests": [
-                {"name": "TestVerifC20Daisy", "quick": 8000, "thorough": 160000, "shards": {"thorough": 16}},
+                {"name": "TestVerifC20Daisy", "quick": 5000, "thorough": 160000, "shards": {"thorough": 16}},
             ],
         },
         {
